@@ -97,6 +97,8 @@ def run(ctx):
     for (si, tol, dbg, meta), a in zip(sinfo, run_harness(sreqs)):
         ctx.evaluations += 1; ctx.count("settings_combination")
         base = ss[si]["impl"]
+        if tol is not None and a.get("status") in ("unstable", "zerodet") and base.get("status") == "ok":
+            ctx.count("stability_test_rejects_an_ok_sample(allowed)"); continue
         if numeric(a) != numeric(base):
             ctx.violation(f"settings (stability_test={tol}, print_debug_info={dbg}, return_metadata={meta}) change the numerical result", S.small_req(ss[si]),
                           expected=numeric(base), observed=numeric(a))
